@@ -27,9 +27,26 @@ def native_c09(tier, seed):
                          'cases': r['cases'], 'nontrivial': r['nontrivial'], 'samples': r['samples'][:2]}]}
 
 
+def native_sweep(script, what, quick, thorough):
+    def f(tier, seed):
+        n = tier_count(tier, quick, thorough)
+        r = native_python(script, ['sweep', str(seed), str(n)], timeout=6000)
+        return {'violations': r['violations'],
+                'bounded': [{'what': what, 'bound': '%d generated cases (seed %d)' % (r['cases'], seed),
+                             'cases': r['cases'], 'nontrivial': r.get('nontrivial'),
+                             'samples': r.get('samples', [])[:2]}]}
+    return f
+
+
 REGISTRY = {
-    'C17': dict(module='contracts.C17', native=None, level='proof', undecided=[],
+    'C17': dict(module='contracts.C17', native=native_sweep('c17_addr.py', 'block order, numbering, both addressing forms for sources and loads, listings, all-of-object / all attachment on the real code through main()', 60, 1500), level='proof', undecided=[],
                 trusted=['list.sort(key) / sorted(): result is a permutation ordered by the key (axiom)']),
+    'C07': dict(module='contracts.C07', level='proof',
+                native=native_sweep('c07_lin.py', 'homogeneity, superposition, order independence and printed source data on the real solver (1..4 sources incl. grounded and junction pulses)', 40, 1500),
+                undecided=['invariance of the dBi pattern under voltage scaling (vectorised far field)'],
+                trusted=['np.linalg.solve(Z, b) is a function of (Z, b), linear in b (LAPACK)',
+                         'measure_time decorator returns the wrapped method\'s result unchanged',
+                         'call graph of E4 over-approximates calls by method name']),
     'C09': dict(module='contracts.C09', native=native_c09, level='proof',
                 undecided=[], trusted=['sum over a permutation of a list = sum over the list (commutativity of +)']),
 }
